@@ -17,6 +17,7 @@ SNext ==
     /\ Len(hist) < ScenLen
     /\ \/ TimerExpire /\ H(Tok("timer", "env"))
        \/ CtxCancel /\ H(Tok("ctx", "env"))
+       \/ Resched /\ H(Tok("resched", "env"))
        \/ \E c \in Callers : \/ RLookup(c) /\ H(Tok("call", c))
                              \/ (RCheck(c) \/ RSend(c)) /\ H(Tok("step", c))
        \/ \E k \in Cancellers : \/ KLookup(k) /\ H(Tok("call", k))
